@@ -206,7 +206,43 @@ def gen_targeted(rng, n):
                 else:
                     ops.append(msg(snd_una if rng.below(2) else last_sent)); ops.append("P")
                     ops.append("P")
-    return [" ".join(str(x) for x in c["cfg"]) + " " + " ".join(c["ops"]) for c in cases]
+    return [" ".join(str(x) for x in c["cfg"]) + " " + " ".join(c["ops"]) for c in cases] + \
+        gen_sacked_probe(rng.fork("sacked_probe"), max(6, n // 16))
+
+
+def gen_sacked_probe(rng, n):
+    """Open-loop: the newest segment is an MTU probe (first flight: one proven-size segment + the probe), the peer
+    acknowledges the PROBE selectively while the segment before it is lost, then the retransmission timer fires once or
+    twice (the probe's own retry budget is 0 or 1, so an unacknowledged probe would be given up here): only the hole may
+    be resent, the selectively acknowledged probe must neither be sent again nor be re-cut (seeded C06-b / C14-b)."""
+    out = []
+    for i in range(n):
+        isn = rng.choice([100, 65534, 65535, rng.below(65536)])
+        link = rng.choice([1500, 1500, 1280, 9000])
+        cfg = cfg_line(nagle=rng.choice([0, 1]), max_retx=5, isn=isn, link=link, probe_retx=rng.choice([0, 0, 1]),
+                       syn_rtt=rng.choice([1_000_000, 100_000_000]))
+        ts = [10]
+
+        def msg(ack, sack="-", wnd=1048576):
+            ts[0] += rng.range(1, 5000)
+            return f"M2,1,{ack % 65536},{wnd},{ts[0]},0,0,{sack}"
+        total = rng.choice([1519, 1519, 528 + 700, 528 + 900, 2000])
+        ops = [f"W{total},0", "P"]
+        # ack_nr = isn (nothing cumulatively acknowledged); SACK bit 0 names isn + 2 = the second segment (the probe)
+        wnd = rng.choice([1048576, 1048576, 600, 300])
+        ops += [msg(isn, sack="0100000000000000", wnd=wnd), "P"]
+        now = cfg[17]
+        for k in range(rng.choice([1, 2, 2, 3])):
+            now += rng.choice([250_000_000, 450_000_000, 1_000_000_000, 3_000_000_000])
+            ops += [f"T{now}", "P"]
+            if rng.below(3) == 0:
+                ops += [msg(isn, sack="0100000000000000", wnd=wnd), "P"]
+        if rng.below(2):
+            ops += [msg(isn + 2), "P"]
+        if rng.below(2):
+            ops += ["DR", "DW", "P"]
+        out.append(" ".join(str(x) for x in cfg) + " " + " ".join(ops))
+    return out
 
 
 def gen(rng, tier):
@@ -249,8 +285,14 @@ def component(pred):
     return c
 
 
-PREDS = ("c05_window_ok", "c05_zero_window_ok", "c05_zero_window_strict", "c05_rto_single_ok", "c05_rto_exit_ok",
-         "c05_slow_start_ok", "c05_monitor_ok")
+# Session 5: c05_window_ok (Conn/C05_Pred.v) had a pattern defect (`p1 :: _ as data` binds the TAIL: the first ST_DATA of the
+# poll was left out of the sum) - replaced by c05_window_ok2 (whole list; THEOREM of every step / trace under the observable guard
+# c05_win_guard).  c05_rto_exit_ok and c05_zero_window_ok are FALSE of the model as written (c05_rto_exit_ok_b6_refuted: boundary
+# B6 when the peer's payload raised min_ss to max_ss; c05_zero_window_ok_closed_refuted: a poll that ends closed) - replaced by
+# their proved forms c05_rto_exit_ok2 / c05_zero_window_ok_open.  c05_rto_single_ok, c05_monitor_core_ok: theorems of every
+# trace.  Still monitored only: c05_zero_window_strict (known class D16), c05_slow_start_ok, c05_monitor_ok (never-sent-suffix).
+PREDS = ("c05_window_ok2", "c05_zero_window_ok_open", "c05_zero_window_strict", "c05_rto_single_ok", "c05_rto_exit_ok2",
+         "c05_slow_start_ok", "c05_monitor_ok", "c05_monitor_core_ok")
 # one pass over the traces evaluates all predicates (the driver reports the first one that fails,
 # by name); one component per predicate costs a full differential run each
 
